@@ -167,3 +167,106 @@ def nodes_in_eval_order(fn):
         order[id(n)] = i
         i += 1
     return order
+
+
+CONSENSUS_MSG = "consensus::consensus::ConsensusMessage"
+
+
+def core_handlers(prog):
+    """Find, in Core's main loop, the handler each ConsensusMessage variant is dispatched to.
+    Returns (run_fn, {variant: (handler Fn, call node)}, loopback handler (Fn, call node) or None, timer handler)."""
+    out = {}
+    run = None
+    loopback = None
+    timer = None
+    for f in prog.methods_of(CORE):
+        for n in f.nodes():
+            if n["k"] == "match" and peel(n["scrut"].get("ty")) == CONSENSUS_MSG:
+                run = f
+                for arm in n["arms"]:
+                    p = arm["pat"]
+                    if p["k"] in ("ptstruct", "pstruct") and p["path"].startswith(CONSENSUS_MSG + "::"):
+                        v = p["path"].rsplit("::", 1)[-1]
+                        for x in ir.walk(arm["body"]):
+                            if x["k"] in ("mcall", "call") and any(q in prog.fns for q in callee_paths(x)):
+                                h = next(q for q in callee_paths(x) if q in prog.fns)
+                                out[v] = (prog.fns[h], x)
+                                break
+    if run is not None:
+        for n in run.nodes():
+            if n["k"] == "select":
+                for b in n["branches"]:
+                    fut = b.get("fut")
+                    calls = [x for x in ir.walk(b["body"]) if x["k"] in ("mcall", "call") and any(q in prog.fns for q in callee_paths(x))]
+                    if fut is None or not calls:
+                        continue
+                    first = calls[0]
+                    h = next(q for q in callee_paths(first) if q in prog.fns)
+                    fty = peel(fut.get("ty"))
+                    if b["body"]["k"] != "match" and "Receiver" in (ir.pp(fut) + fty) or "recv" in ir.pp(fut):
+                        if b["body"]["k"] != "match":
+                            loopback = (prog.fns[h], first)
+                    elif b["body"]["k"] != "match":
+                        timer = (prog.fns[h], first)
+    return run, out, loopback, timer
+
+
+def peel(t):
+    from .analysis import peel_ty
+    return peel_ty(t)
+
+
+def msg_param_term(env, fn):
+    """Canonical term of the first non-self parameter of a handler."""
+    ctx = env.ctx(fn)
+    for p in fn.params:
+        if p["k"] == "pbind" and p["name"] not in ("self", "__self"):
+            return ctx.var_term(p["id"], p["name"])
+    return None
+
+
+def effectful_fns(env):
+    """Local functions that (transitively) have an effect: write a field, mutate a container field, send on a
+    channel or the network, or write the store."""
+    prog = env.prog
+    prim = set()
+    for f in prog.fns.values():
+        if f.derived:
+            continue
+        for n in f.nodes():
+            if is_primitive_effect(n):
+                prim.add(f.path)
+                break
+    cg = env.callgraph()
+    eff = set(prim)
+    changed = True
+    while changed:
+        changed = False
+        for p, outs in cg.items():
+            if p not in eff and outs & eff:
+                eff.add(p)
+                changed = True
+    return eff
+
+
+MUTATORS = {"insert", "push", "push_back", "push_front", "pop", "pop_back", "pop_front", "remove", "retain", "clear",
+            "entry", "drain", "extend", "append", "truncate", "reset", "or_insert_with", "or_insert"}
+NET_SEND = ("network::simple_sender::SimpleSender::send", "network::simple_sender::SimpleSender::broadcast",
+            "network::simple_sender::SimpleSender::lucky_broadcast", "network::reliable_sender::ReliableSender::send",
+            "network::reliable_sender::ReliableSender::broadcast", "network::reliable_sender::ReliableSender::lucky_broadcast")
+
+
+def is_primitive_effect(n):
+    k = n["k"]
+    if k in ("assign", "assignop"):
+        t = n["l"]
+        while t["k"] in ("index",) or (t["k"] == "un" and t.get("op") == "*"):
+            t = t["e"]
+        return t["k"] == "field"
+    if k == "mcall":
+        paths = callee_paths(n)
+        if MPSC_SEND in paths or "store::Store::write" in paths or any(p in NET_SEND for p in paths):
+            return True
+        if n["name"] in MUTATORS and n["recv"]["k"] == "field" and not any(p.startswith(("consensus::", "mempool::", "network::", "store::", "crypto::")) for p in paths):
+            return True
+    return False
